@@ -16,18 +16,11 @@
      step law on every transition of every reachable converter state.      *)
 EXTENDS Codepage, TLC
 
-CONSTANTS Alphabet,     \* sequence of attribute sets; model byte i has the attributes Alphabet[i]
+CONSTANTS AlphaName,    \* "seven" | "nine" | "step": which alphabet (sequence of attribute sets; model byte i has the attributes Alphabet[i])
           MaxLen,       \* bound on the input length (history model)
           History       \* TRUE: history model, FALSE: step model
 
 Attr == {"lead", "trail", "bl0", "br0", "bl1", "br1", "pres"}
-Bytes == 1..Len(Alphabet)
-Has(a) == TLCEval({b \in Bytes : a \in Alphabet[b]})
-MK0(box) == [lead |-> Has("lead"), trail |-> Has("trail"),
-            boxl |-> <<Has("bl0"), Has("bl1")>>, boxr |-> <<Has("br0"), Has("br1")>>,
-             dbcs |-> TRUE, pres |-> Has("pres"), box |-> box]
-MKs == TLCEval([b \in BOOLEAN |-> MK0(b)])                    \* evaluated once
-MK(b) == MKs[b]
 
 \* the seven classes named in the design + a second box set and a both-sides box byte (like the real U+2500)
 LT == {"lead", "trail"}
@@ -39,39 +32,53 @@ BoxKindSeq == <<{}, {"bl0"}, {"br0"}, {"bl0", "br0"}, {"bl1", "br1"}, {"bl0", "b
 AlphaStep == <<{"pres"}, {"pres", "lead", "trail", "bl0", "br0"}>>
              \o [i \in 1..36 |-> LeadKinds[((i - 1) \div 9) + 1] \cup BoxKindSeq[((i - 1) % 9) + 1]]
 
-VARIABLES box, st, consumed, out, lastc, lasto
-vars == <<box, st, consumed, out, lastc, lasto>>
+\* (zero-arity definitions so that TLC evaluates them once; no identifier below may coincide with a variable name,
+\*  otherwise TLC takes the definition for state-dependent and re-evaluates it at every use)
+Alphabet == CASE AlphaName = "seven" -> Alpha7 [] AlphaName = "nine" -> Alpha9 [] OTHER -> AlphaStep
+Bytes == 1..Len(Alphabet)
+HasAttr(a) == TLCEval({b \in Bytes : a \in Alphabet[b]})
+MK0(bx) == [lead |-> HasAttr("lead"), trail |-> HasAttr("trail"),
+            boxl |-> <<HasAttr("bl0"), HasAttr("bl1")>>, boxr |-> <<HasAttr("br0"), HasAttr("br1")>>,
+            dbcs |-> TRUE, pres |-> HasAttr("pres"), box |-> bx]
+MKs == TLCEval([bx \in BOOLEAN |-> MK0(bx)])
+MK(bx) == MKs[bx]
+LeadSet == HasAttr("lead")
+TrailSet == HasAttr("trail")
+PresSet == HasAttr("pres")
 
-Init == /\ box \in BOOLEAN /\ st = CInit /\ consumed = <<>> /\ out = <<>>
-        /\ lastc = <<>> /\ lasto = <<>>
+VARIABLES vBox, vSt, vConsumed, vOut, vLastC, vLastO
+vars == <<vBox, vSt, vConsumed, vOut, vLastC, vLastO>>
 
-FeedChunk(ch) == LET r == Feed(MK(box), st, ch) IN
-    /\ st' = r.st /\ lastc' = ch /\ lasto' = r.out
-    /\ consumed' = IF History THEN consumed \o ch ELSE <<>>
-    /\ out' = IF History THEN out \o r.out ELSE <<>>
-    /\ UNCHANGED box
-Next == IF History THEN \E k \in 1..(MaxLen - Len(consumed)) : \E ch \in [1..k -> Bytes] : FeedChunk(ch)
+Init == /\ vBox \in BOOLEAN /\ vSt = CInit /\ vConsumed = <<>> /\ vOut = <<>>
+        /\ vLastC = <<>> /\ vLastO = <<>>
+
+FeedChunk(ch) == LET r == Feed(MK(vBox), vSt, ch) IN
+    /\ vSt' = r.st /\ vLastC' = ch /\ vLastO' = r.out
+    /\ vConsumed' = IF History THEN vConsumed \o ch ELSE <<>>
+    /\ vOut' = IF History THEN vOut \o r.out ELSE <<>>
+    /\ UNCHANGED vBox
+Next == IF History THEN \E k \in 1..(MaxLen - Len(vConsumed)) : \E ch \in [1..k -> Bytes] : FeedChunk(ch)
         ELSE \E c \in Bytes : FeedChunk(<<c>>)
 Spec == Init /\ [][Next]_vars
 
-View == <<box, st, consumed, out>>
+View == <<vBox, vSt, vConsumed, vOut>>
 
 \* --- the property on the model
-ConcatInv == History => Flat(out) \o st.buf = consumed
+ConcatInv == History => Flat(vOut) \o vSt.buf = vConsumed
 ChunkIndependent == History =>
-    LET r == Feed(MK(box), CInit, consumed) IN r.st = st /\ r.out = out
-Shape == ShapeOK(MK(box), st)
+    LET r == Feed(MK(vBox), CInit, vConsumed) IN r.st = vSt /\ r.out = vOut
+Shape == ShapeOK(MK(vBox), vSt)
 \* flushing at any point gives a segmentation of the input into 1- and 2-byte sequences
 Segmentation == History =>
-    LET m == Mark(MK(box), consumed) IN
-    /\ Flat(m) = consumed /\ m = out \o FlushAll(st.buf)
+    LET m == Mark(MK(vBox), vConsumed) IN
+    /\ Flat(m) = vConsumed /\ m = vOut \o FlushAll(vSt.buf)
     /\ \A i \in 1..Len(m) : Len(m[i]) \in {1, 2}
-\* without box protection every 2-byte sequence is a lead byte followed by a trail byte, and a preserved
+\* without vBox protection every 2-byte sequence is a lead byte followed by a trail byte, and a preserved
 \* byte is never part of one
-PairsNoBox == (History /\ ~box) =>
-    \A i \in 1..Len(out) : Len(out[i]) = 2 => out[i][1] \in Has("lead") /\ out[i][2] \in Has("trail")
+PairsNoBox == (History /\ ~vBox) =>
+    \A i \in 1..Len(vOut) : Len(vOut[i]) = 2 => vOut[i][1] \in LeadSet /\ vOut[i][2] \in TrailSet
 PreservedAlone == History =>
-    \A i \in 1..Len(out) : Len(out[i]) = 2 => out[i][1] \notin Has("pres") /\ out[i][2] \notin Has("pres")
+    \A i \in 1..Len(vOut) : Len(vOut[i]) = 2 => vOut[i][1] \notin PresSet /\ vOut[i][2] \notin PresSet
 \* inductive step law (both models): what one call emits plus the new buffer is the old buffer plus the chunk
-StepLaw == [][Flat(lasto') \o st'.buf = st.buf \o lastc']_vars
+StepLaw == [][Flat(vLastO') \o vSt'.buf = vSt.buf \o vLastC']_vars
 =============================================================================
